@@ -187,7 +187,7 @@ Cur == [agents |-> agents, mq |-> mq, step |-> step, evs |-> evs, nsent |-> nsen
 HObs(h, E) == [i \in DOMAIN h |-> [eid |-> h[i].eid, by |-> h[i].by, at |-> E[h[i].eid].at, seq |-> E[h[i].eid].seq]]
 
 (********************************* actions **********************************)
-Log(rec) == hist' = Append(hist, rec)
+Log(rec) == hist' = IF L = 0 THEN hist ELSE Append(hist, rec)       \* L = 0: exhaustive configurations carry no observation log
 Q1 == Queries(agents', tmap', nextId')
 
 Create(ty, v) ==
